@@ -9,8 +9,18 @@ f32 = st.floats(width=32, allow_nan=False, allow_infinity=False)
 f64 = st.floats(allow_nan=False, allow_infinity=False)
 # doubles whose decimal exponent has two digits (what the ASCII layout has room for)
 f64_2digit = st.one_of(st.just(0.0), st.floats(1e-99, 9.9e99), st.floats(-9.9e99, -1e-99))
-i32 = st.one_of(st.integers(-(2**31), 2**31 - 1), st.integers(-50, 50), st.sampled_from([2**31 - 1, -(2**31), 10**9, -(10**9), 999999999]))
+# mostly up to nine digits (what the ASCII layout has room for), one draw in forty needs ten digits
+_special_i32 = st.sampled_from([2**31 - 1, -(2**31), 10**9, -(10**9), 1234567890, -2000000000])
+i32 = st.tuples(st.integers(0, 39), st.integers(-999999999, 999999999), st.integers(-50, 50), _special_i32).map(
+    lambda t: t[3] if t[0] == 39 else (t[2] if t[0] % 3 == 0 else t[1])
+)
+f64_mostly = st.tuples(st.integers(0, 11), f64_2digit, f64).map(lambda t: t[2] if t[0] == 11 else t[1])
 i64 = st.one_of(st.integers(-(2**63), 2**63 - 1), st.integers(-50, 50))
+
+
+def spread(values):
+    """Like sampled_from but without Hypothesis' preference for the first element."""
+    return st.sampled_from(list(values))
 
 
 def text(maxlen):
@@ -30,7 +40,7 @@ def _list_field():
     return st.one_of(
         st.lists(i32, max_size=6).map(lambda v: {"t": "list", "of": "int", "v": v}),
         st.lists(f32, max_size=6).map(lambda v: {"t": "list", "of": "float", "v": v}),
-        st.lists(f64, max_size=6).map(lambda v: {"t": "list", "of": "double", "v": v}),
+        st.lists(f64_mostly, max_size=6).map(lambda v: {"t": "list", "of": "double", "v": v}),
         st.tuples(st.lists(text(8), max_size=5), st.integers(0, 4)).map(
             lambda t: {"t": "list", "of": "str", "v": t[0], "n": max([len(s) for s in t[0]] + [0]) + t[1]}
         ),
@@ -61,7 +71,7 @@ def field():
         i32.map(lambda v: {"t": "int", "v": v}),
         i64.map(lambda v: {"t": "long", "v": v}),
         f32.map(lambda v: {"t": "float", "v": v}),
-        f64.map(lambda v: {"t": "double", "v": v}),
+        f64_mostly.map(lambda v: {"t": "double", "v": v}),
         st.booleans().map(lambda v: {"t": "bool", "v": v}),
         _str_field(),
         _list_field(),
@@ -100,7 +110,7 @@ def _fd(d):
 
 def geodst_case(tier):
     return _fd({
-        "igom": st.sampled_from(fm.GEODST_IGOM),
+        "igom": st.one_of(st.sampled_from([14, 12, 13, 15, 16, 17, 18]), st.sampled_from([1, 2, 3]), st.sampled_from([6, 7, 8, 9, 10, 11]), st.just(0)),
         "nc": st.tuples(st.integers(1, 4), st.integers(1, 4), st.integers(1, 3)).map(list),
         "fine": st.integers(1, 3),
         "nreg": st.integers(1, 6),
@@ -109,7 +119,7 @@ def geodst_case(tier):
         "nbcs": st.integers(0, 3),
         "nibcs": st.integers(0, 3),
         "nzwbb": st.integers(0, 3),
-        "nrass": st.sampled_from([0, 1]),
+        "nrass": spread([1, 0]),
     })
 
 
@@ -127,21 +137,21 @@ def labels_case(tier):
 
 
 def pwdint_case(tier):
-    return _fd({"n": st.tuples(st.integers(1, 5), st.integers(1, 6), st.integers(1, 4)).map(list), "blk": st.integers(0, 5)})
+    return _fd({"n": st.tuples(st.integers(1, 5), st.integers(1, 6), st.integers(1, 4)).map(list), "blk": spread([5, 4, 3, 2, 1, 0])})
 
 
 def rtflux_case(tier):
     return _fd({
-        "ndim": st.sampled_from([2, 3, 3, 3, 2, 3, 3, 2, 1, 0]),
+        "ndim": spread([2, 3, 3, 3, 2, 3, 3, 2, 1, 0]),
         "n": st.tuples(st.integers(1, 4), st.integers(1, 5), st.integers(1, 3)).map(list),
         "ng": st.integers(1, 4),
-        "blk": st.integers(0, 4),
+        "blk": spread([4, 3, 2, 1, 0]),
         "adjoint": st.booleans(),
     })
 
 
 def rzflux_case(tier):
-    return _fd({"nz": st.integers(1, 8), "ng": st.integers(1, 5), "blk": st.integers(0, 7)})
+    return _fd({"nz": st.integers(1, 8), "ng": st.integers(1, 5), "blk": spread([7, 6, 5, 4, 3, 2, 1, 0])})
 
 
 def fixsrc_case(tier):
@@ -162,7 +172,7 @@ def nhflux_case(tier):
         "next": st.integers(0, 5),
         "nsym": st.integers(0, 2),
         "nsec": st.integers(0, 2),
-        "iwnhfl": st.sampled_from([0, 0, 0, 1, 1, 2]),
+        "iwnhfl": spread([0, 0, 0, 1, 1, 2]),
         "sets": st.sampled_from([1, 1, 1, 2]),
     })
 
@@ -176,12 +186,12 @@ def isotxs_case(tier):
         "kind": st.sampled_from(["isotxs", "gamiso"]),
         "fixture": st.integers(0, 3),
         "pick": st.lists(st.integers(0, 60), min_size=1, max_size=5, unique=True),
-        "nsblok": st.sampled_from([1, 1, 2, 3, 4, 33]),
+        "nsblok": spread([1, 1, 2, 3, 4, 33]),
         "drop_xs": st.lists(st.sampled_from(["nalph", "np", "n2n", "nd", "nt"]), max_size=2, unique=True),
         "drop_block": st.integers(0, 12),
         "strpd": st.integers(0, 2),
         "fileChi": st.booleans(),
-        "scale": st.sampled_from([1.0, 0.5, 2.0, -1.0, 0.0]),
+        "scale": spread([0.5, 1.0, 2.0, -1.0, 0.0]),
         "seed": st.integers(0, 2**32),
         "label": text(24),
         "libLabel": text(40),
@@ -216,11 +226,12 @@ def dlayxs_case(tier):
 
 def compxs_case(tier):
     return st.fixed_dictionaries({
-        "order": st.integers(0, 3),
+        "order": spread(range(4)),
         "regions": st.lists(st.integers(0, 2), min_size=1, max_size=4),
         "fileChi": st.sampled_from([0] * 9 + [1]),
         "delayed": st.sampled_from([0] * 9 + [2]),
         "scale": st.sampled_from([1.0, 0.5, -2.0]),
         "seed": st.integers(0, 2**32),
         "binary_first": st.booleans(),
+        "d1d2": st.booleans(),
     })
